@@ -39,6 +39,7 @@ def run(tier, seed, replay_rows=None):
                                                         ev=[[e["k"], e["a"], e["b"]] for e in t["ev"]]))[:1500],
                      replay_rows=replay_rows, workers=8)
     if replay_rows is None:
+        runtraces.extra(ck, "C02", "c02stress", "c02stress.ndjson")
         runtraces.check(ck, "C02")
     return ck.finish()
 
